@@ -234,6 +234,11 @@ func (c *e2eCtx) newScenario(i int, r *rand.Rand, o proj.Opts, mkcfg func(r *ran
 	s := &scenario{id: i, dir: filepath.Join(c.work, fmt.Sprintf("s%04d", i))}
 	s.p = proj.Generate(r, o)
 	s.oldTree, s.newTree = s.p.Files(true), s.p.Files(false)
+	const steadyPath = "pkg/l0/zz_steady.go"
+	const steadySrc = "package l0\n\n// Steady is the same at the fork point and in the new revision.\nfunc Steady(a int) int {\n\ta += 3\n\treturn a\n}\n"
+	if i%5 == 3 {
+		s.oldTree[steadyPath], s.newTree[steadyPath] = steadySrc, steadySrc
+	}
 	var err error
 	if s.oldRev, err = proj.InitRepo(s.dir, s.oldTree, 1700000000); err != nil {
 		return nil, err
@@ -247,15 +252,8 @@ func (c *e2eCtx) newScenario(i int, r *rand.Rand, o proj.Opts, mkcfg func(r *ran
 		}
 		// … and one function appended to a library file that the new revision leaves as it was at
 		// the fork: the file differs between the two revisions, yet the new one has no line of its own
-		for _, k := range sortedKeys(s.oldTree) {
-			if strings.HasSuffix(k, ".go") && !strings.HasSuffix(k, "_test.go") && strings.HasPrefix(k, "pkg/") && !strings.Contains(k, "testdata") &&
-				s.newTree[k] == s.oldTree[k] && strings.HasSuffix(s.oldTree[k], "}\n") && !strings.Contains(s.oldTree[k], "+goat:") && !strings.Contains(s.oldTree[k], "var asset") {
-				side[k] = s.oldTree[k] + "\n// SideAppended was added on the side branch after the fork.\nfunc SideAppended(a int) int {\n\ta -= 2\n\treturn a\n}\n"
-				s.sideOnly = map[string]bool{k: true}
-				c.count("history:diverged-side-append")
-				break
-			}
-		}
+		side[steadyPath] = steadySrc + "\n// SideAppended was added on the side branch after the fork.\nfunc SideAppended(a int) int {\n\ta -= 2\n\treturn a\n}\n"
+		s.sideOnly = map[string]bool{steadyPath: true}
 		side["pkg/l0/zz_side_only.go"] = "package l0\n\n// SideOnly exists only on the side branch.\nfunc SideOnly(a int) int {\n\ta--\n\treturn a\n}\n"
 		if _, err = proj.Git(s.dir, 0, "checkout", "-q", "-b", "side"); err != nil {
 			return nil, err
